@@ -47,6 +47,14 @@ theorem check_sssr_sound (g : Adj) (rings : List (List Nat)) (h : checkSssr g ri
   obtain ⟨⟨h1, h2⟩, h3⟩ := h
   exact ⟨fun r hr => (isCycleOf_iff g r).1 (h1 r hr), indepCheck_sound h3, h2⟩
 
+/-- **checker completeness**: the checker rejects nothing that satisfies the three clauses — it decides them, so a
+correct ring set can never raise an alarm through the checker -/
+theorem check_sssr_complete (g : Adj) (rings : List (List Nat))
+    (h1 : ∀ r ∈ rings, IsSimpleCycle g r) (h2 : Independent (rings.map (ringVec (edgeList g))))
+    (h3 : cyclomatic g = some (rings.length : Int)) : checkSssr g rings = true := by
+  simp only [checkSssr, Bool.and_eq_true, List.all_eq_true, beq_iff_eq]
+  exact ⟨⟨fun r hr => (isCycleOf_iff g r).2 (h1 r hr), h3⟩, (indepCheck_iff _).2 h2⟩
+
 /-- a simple cycle uses each of its bonds once -/
 theorem cycle_edges_distinct (r : List Nat) (h3 : 3 ≤ r.length) (hnd : r.Nodup) : (cycleEdges r).Nodup :=
   cycleEdges_nodup r h3 hnd
